@@ -115,7 +115,10 @@ def tx_sets_one(ref:Ref, tid, p, o, site_list):
     L, U = set(), set()
     sect_info = {}
     tg = ref.tx_gene(tid)
-    base_lo, base_hi = set(plain_lo), set(plain_hi)
+    # W>F forms are only derived from products the tool reports: with an open 3' end
+    # (mRNA_end_NF) the product touching it is never reported, nor are its W>F forms
+    plain_rep = dig(prot, False, not nf_end)
+    base_lo, base_hi = set(plain_lo), set(plain_rep)
     tail = set()
     last_site = max([0] + [x for x in all_sites if x < len(prot)])
     for c in t.get('secs', []):
@@ -145,7 +148,7 @@ def tx_sets_one(ref:Ref, tid, p, o, site_list):
     # "arise only through": plain products are not alt-translation peptides. With an open 3'
     # end the tool may or may not report the last plain product, so only what is certainly
     # plain is removed from U and everything possibly plain from L
-    return L - plain_hi, U - plain_lo, plain_hi, sect_info, tail
+    return L - plain_hi, U - plain_lo, plain_rep, sect_info, tail
 
 
 def prop(case, ctx):
